@@ -123,6 +123,28 @@ Theorem C19_atomic_code : forall d0 jobs sched j t addrs,
 Proof. exact Rodbus.Proofs.LockScopeProofs.atomic_for_the_code. Qed.
 Print Assumptions C19_atomic_code.
 
+(* The lock scope as read off the sources (Gen/LockScope.v, regenerated on every run):
+   - unicast request (server/task.rs handle_frame): the statement `let reply = request.get_reply(header,
+     handler.lock().unwrap().as_mut(), &mut self.writer, decode)?;` is ONE critical section of the unit's mutex;
+     the FrameWriter is an argument of that call, so EVERY reply byte is computed under the lock: MBAP / RTU
+     header, function code, byte count and data (all handler read_* calls) or the write echo (after the one
+     write_* call) or the exception code, and the CRC on serial. The statement contains no await (get_reply is
+     not async). The socket write (`write_reply(io, reply, ..).await`, F11) is the NEXT statement: it happens
+     after the guard is dropped, on bytes that are already final - a slow or stalled peer never holds the lock.
+   - the authorization handler is consulted before the lock is taken.
+   - C-ABI transaction (ffi server.rs server_update_database): one guard spans the whole callback.
+   - broadcast (serial): `for handler in self.handlers.iter_mut() { request.execute(handler.lock()..) }` takes each
+     unit's lock separately: a broadcast write is atomic PER UNIT, not across units. With the C ABI every unit has
+     its own Database and a request reads exactly one unit, so no single request can observe a half-applied
+     broadcast; two requests to two units can (documented, not a property violation). *)
+Theorem C19_lock_scope :
+  reply_in_one_critical_section = true /\ reply_bytes_formatted_under_lock = true /\
+  locked_statement_is_synchronous = true /\ socket_write_after_unlock = true /\
+  authorization_before_lock = true /\ transaction_in_one_critical_section = true /\
+  wrapper_takes_no_lock = true /\ broadcast_locks_each_unit_separately = true.
+Proof. exact Rodbus.Proofs.LockScopeProofs.lock_scope_facts. Qed.
+Print Assumptions C19_lock_scope.
+
 (* The theorem is about the lock scope: with per-point locking (each single point access atomic, the
    job as a whole not) the same statement is REFUTED by a concrete schedule (reader sees [7;1;1]). *)
 Theorem C19_atomic_needs_lock : exists d0 jobs sched j t addrs,
